@@ -318,6 +318,31 @@ class Walruser(ast.NodeTransformer):
         return ast.While(test=test, body=node.body[2:], orelse=[])
 
 
+class LogInserter(ast.NodeTransformer):
+    """Insert `logging.getLogger(__name__).debug(...)` at the start of every function and before every return / raise-free loop: a maintainer adding
+    diagnostics changes no behaviour the properties speak about."""
+
+    def _log(self, what, at):
+        call = ast.Expr(ast.Call(func=ast.Attribute(value=ast.Call(func=ast.Attribute(value=ast.Name('logging', ast.Load()), attr='getLogger', ctx=ast.Load()),
+                                                                    args=[ast.Name('__name__', ast.Load())], keywords=[]), attr='debug', ctx=ast.Load()),
+                                 args=[ast.Constant('%s'), ast.Constant(what)], keywords=[]))
+        return ast.copy_location(call, at)
+
+    def visit_FunctionDef(self, node):
+        self.generic_visit(node)
+        i = 1 if node.body and isinstance(node.body[0], ast.Expr) and isinstance(node.body[0].value, ast.Constant) and isinstance(node.body[0].value.value, str) else 0
+        if node.body[i:]:
+            node.body.insert(i, self._log('enter ' + node.name, node.body[i]))
+        return node
+
+    def visit_For(self, node):
+        self.generic_visit(node)
+        node.body.insert(0, self._log('iteration', node.body[0]))
+        return node
+
+    visit_While = visit_For
+
+
 def rewrite(d, mode):
     for f in sorted(os.listdir(os.path.join(d, 'disk_objectstore'))):
         if not f.endswith('.py'):
@@ -344,6 +369,14 @@ def rewrite(d, mode):
             ast.fix_missing_locations(tree)
         elif mode == 'withmerge':
             tree = WithMerger().visit(tree)
+            ast.fix_missing_locations(tree)
+        elif mode == 'logging':
+            tree = LogInserter().visit(tree)
+            if not any(isinstance(n, ast.Import) and any(a.name == 'logging' for a in n.names) for n in tree.body):
+                k = 1 if tree.body and isinstance(tree.body[0], ast.Expr) and isinstance(getattr(tree.body[0], 'value', None), ast.Constant) else 0
+                while k < len(tree.body) and isinstance(tree.body[k], ast.ImportFrom) and tree.body[k].module == '__future__':
+                    k += 1
+                tree.body.insert(k, ast.Import(names=[ast.alias(name='logging')]))
             ast.fix_missing_locations(tree)
         elif mode == 'loopify':
             tree = Loopifier().visit(tree)
